@@ -32,7 +32,7 @@ func init() {
 			"then 1-25 operations from {append k complete lines, append a prefix of a line, complete it, rotate (rename chain + create), truncate to zero, append a line longer than the read buffer}, " +
 			"each followed by its file-system events and a run to quiescence; read-buffer knob {16,64,4096}; a consumer task drains Lines(); " +
 			"non-trivial = at least one rotation or truncation or partial append and at least 2 rotated files; distinct = distinct (history hash, schedule hash)",
-		Quick: 3000, Thorough: 150000,
+		Quick: 8000, Thorough: 250000,
 	})
 }
 
